@@ -360,7 +360,7 @@ func checkC03(w *Worker) {
 				}
 			}
 			return idxs
-		}, 2))
+		}, 3))
 		return
 	}
 	w.Explore("subsets-ab-depth3", ExploreOpts{ShardDepth: 9}, body(uni2, func(x *Exec) []int {
